@@ -239,7 +239,13 @@ func WithTxReadClosers(ctx context.Context, db Database, opts *sql.TxOptions, fn
 	}
 
 	for i := range readers {
+		// Each reader counts once, however often it is closed: a second Close of
+		// one reader must not release the transaction under the others.
+		var closed atomic.Bool
 		readers[i] = ioutils.NewReadCloserWithCloseHook(readers[i], func() error {
+			if !closed.CompareAndSwap(false, true) {
+				return nil
+			}
 			if atomic.AddInt64(&remaining, -1) == 0 {
 				return tx.Rollback(ctx)
 			}
